@@ -101,6 +101,9 @@ func (c CoefficientGetter) GetVectorCoefficient(pol polynomial.PolynomialVector,
 	mapping := pol.Mapping
 
 	for i, p := range pol.Value {
+		if p.Coeffs[k] == nil {
+			continue // absent coefficient (e.g. the skipped parity of an odd or even polynomial of a mixed vector): 0
+		}
 		for _, j := range mapping[i] {
 			values[j] = p.Coeffs[k].Uint64()
 		}
